@@ -22,6 +22,8 @@ criterion remains the same.
 # IMPORTS
 # =============================================================================
 
+import copy
+
 import numpy as np
 import numpy.lib.arraysetops as arrset
 
@@ -499,7 +501,9 @@ class RankInvariantChecker(SKCMethodABC):
         dmaker = self.dmaker
         allow_missing_alternatives = self.allow_missing_alternatives
         repeat = self.repeat
-        random = self.random_state
+        # draw from a copy: the generator kept on the instance is never
+        # advanced, so every call on the same matrix gives the same result
+        random = copy.deepcopy(self.random_state)
 
         # all alternatives to be used to check consistency
         full_alternatives = dm.alternatives
